@@ -1,6 +1,426 @@
-//! tags ops. Stub until the layer is built. Mirror of coq/Extract/Ops*.v
+//! tags ops (C16). Mirror of coq/Extract/OpsTags.v
+//!
+//! op 3201: a SET/SEQUENCE definition given as integers is rendered as ASN.1 text and pushed through the
+//! crate's real pipeline (Tokenizer -> Model::try_from -> try_resolve -> to_rust -> RustCodeGenerator text ->
+//! the `#[asn(..)]` attribute macro entry points parse_asn_definition/expand, i.e. what rustc would run on the
+//! generated file); the field order of read_seq/write_seq, the TAG constants of the field constraints and the
+//! STD_OPTIONAL_FIELDS / EXTENDED_AFTER_FIELD constants are parsed out of the expanded text.
+//!
+//! input : is_set ext auto n (tc tn ty opt)*n m entry*m
+//!           ext  = -1 (no marker) or the number of components written before the `...`
+//!           tc   = -1 (untagged) | 0 UNIVERSAL | 1 APPLICATION | 2 context | 3 PRIVATE ; tn = number
+//!           ty   = builtin 0..11 | inline 20 ENUMERATED, 21 SEQUENCE, 22 SET | 99 reference to an undefined name
+//!                  | 100+j reference to table entry j
+//!           opt  = 0 mandatory | 1 OPTIONAL | 2 DEFAULT (rendered as OPTIONAL for kinds without a literal)
+//!           entry = tc tn kind [cext k (tc tn ty)*k]   kind as ty, 23 = CHOICE (followed by its alternatives);
+//!                  references only to later entries
+//! output: 0 n order(n original indices) tags(n x class number) std_optional extended_after(-1 none) own_class own_number
+//!         | 1 stage (front end returned an error) | 2 class (panic) | -2 (malformed input)
 use crate::I;
+use asn1rs_model::generate::rust::RustCodeGenerator;
+use asn1rs_model::generate::Generator;
+use asn1rs_model::parse::Tokenizer;
+use asn1rs_model::Model;
 
-pub fn run(_op: I, _a: &[I]) -> Vec<I> {
-    vec![-1]
+struct Comp {
+    tc: I,
+    tn: I,
+    ty: I,
+    opt: I,
+}
+struct Alt {
+    tc: I,
+    tn: I,
+    ty: I,
+}
+struct Entry {
+    tc: I,
+    tn: I,
+    kind: I,
+    cext: I,
+    alts: Vec<Alt>,
+}
+struct Def {
+    is_set: bool,
+    ext: I,
+    auto: bool,
+    comps: Vec<Comp>,
+    table: Vec<Entry>,
+}
+
+fn builtin_ok(t: I) -> bool {
+    (0..=11).contains(&t)
+}
+
+fn decode(a: &[I]) -> Option<Def> {
+    let mut it = a.iter().copied();
+    let is_set = it.next()?;
+    let ext = it.next()?;
+    let auto = it.next()?;
+    let n = it.next()?;
+    if !(0..=1).contains(&is_set) || !(0..=1).contains(&auto) || n < 0 || ext < -1 || ext > n {
+        return None;
+    }
+    let mut comps = Vec::new();
+    for _ in 0..n {
+        let c = Comp { tc: it.next()?, tn: it.next()?, ty: it.next()?, opt: it.next()? };
+        if !(-1..=3).contains(&c.tc) || c.tn < 0 || !(0..=2).contains(&c.opt) {
+            return None;
+        }
+        comps.push(c);
+    }
+    let m = it.next()?;
+    if m < 0 {
+        return None;
+    }
+    let mut table = Vec::new();
+    for i in 0..m {
+        let mut e = Entry { tc: it.next()?, tn: it.next()?, kind: it.next()?, cext: -1, alts: Vec::new() };
+        if !(-1..=3).contains(&e.tc) || e.tn < 0 {
+            return None;
+        }
+        let kind_ok = builtin_ok(e.kind)
+            || (20..=23).contains(&e.kind)
+            || e.kind == 99
+            || (e.kind >= 100 && e.kind - 100 > i && e.kind - 100 < m);
+        if !kind_ok {
+            return None;
+        }
+        if e.kind == 23 {
+            e.cext = it.next()?;
+            let k = it.next()?;
+            if k < 1 || !(e.cext == -1 || (1..=k).contains(&e.cext)) {
+                return None;
+            }
+            for _ in 0..k {
+                let al = Alt { tc: it.next()?, tn: it.next()?, ty: it.next()? };
+                let ok = builtin_ok(al.ty) || al.ty == 99 || (al.ty >= 100 && al.ty - 100 > i && al.ty - 100 < m);
+                if !(-1..=3).contains(&al.tc) || al.tn < 0 || !ok {
+                    return None;
+                }
+                e.alts.push(al);
+            }
+        }
+        table.push(e);
+    }
+    if it.next().is_some() {
+        return None;
+    }
+    for c in &comps {
+        let ok = builtin_ok(c.ty) || (20..=22).contains(&c.ty) || c.ty == 99 || (c.ty >= 100 && c.ty - 100 < m);
+        if !ok {
+            return None;
+        }
+    }
+    Some(Def { is_set: is_set == 1, ext, auto: auto == 1, comps, table })
+}
+
+fn tag_txt(tc: I, tn: I) -> String {
+    match tc {
+        -1 => String::new(),
+        0 => format!("[UNIVERSAL {}] ", tn),
+        1 => format!("[APPLICATION {}] ", tn),
+        2 => format!("[{}] ", tn),
+        _ => format!("[PRIVATE {}] ", tn),
+    }
+}
+
+fn type_txt(t: I) -> String {
+    match t {
+        0 => "BOOLEAN".into(),
+        1 => "INTEGER".into(),
+        2 => "OCTET STRING".into(),
+        3 => "UTF8String".into(),
+        4 => "NULL".into(),
+        5 => "BIT STRING".into(),
+        6 => "IA5String".into(),
+        7 => "NumericString".into(),
+        8 => "PrintableString".into(),
+        9 => "VisibleString".into(),
+        10 => "SEQUENCE OF INTEGER".into(),
+        11 => "SET OF INTEGER".into(),
+        20 => "ENUMERATED { x, y }".into(),
+        21 => "SEQUENCE { x INTEGER }".into(),
+        22 => "SET { x INTEGER }".into(),
+        99 => "Undef".into(),
+        j => format!("R{}", j - 100),
+    }
+}
+
+pub fn render(d: &Def) -> String {
+    let mut s = String::new();
+    s.push_str("Mod DEFINITIONS ");
+    if d.auto {
+        s.push_str("AUTOMATIC TAGS ");
+    }
+    s.push_str("::= BEGIN\n");
+    s.push_str(if d.is_set { "Top ::= SET {" } else { "Top ::= SEQUENCE {" });
+    let mut parts: Vec<String> = Vec::new();
+    for (i, c) in d.comps.iter().enumerate() {
+        if d.ext == i as I {
+            parts.push(" ...".into());
+        }
+        let suffix = match (c.opt, c.ty) {
+            (0, _) => "",
+            (2, 0) => " DEFAULT FALSE",
+            (2, 1) => " DEFAULT 0",
+            _ => " OPTIONAL",
+        };
+        parts.push(format!(" c{} {}{}{}", i, tag_txt(c.tc, c.tn), type_txt(c.ty), suffix));
+    }
+    if d.ext == d.comps.len() as I {
+        parts.push(" ...".into());
+    }
+    s.push_str(&parts.join(","));
+    s.push_str(" }\n");
+    for (i, e) in d.table.iter().enumerate() {
+        s.push_str(&format!("R{} ::= {}", i, tag_txt(e.tc, e.tn)));
+        if e.kind == 23 {
+            s.push_str("CHOICE {");
+            let mut parts: Vec<String> = Vec::new();
+            for (k, al) in e.alts.iter().enumerate() {
+                if e.cext == k as I {
+                    parts.push(" ...".into());
+                }
+                parts.push(format!(" a{} {}{}", k, tag_txt(al.tc, al.tn), type_txt(al.ty)));
+            }
+            if e.cext == e.alts.len() as I {
+                parts.push(" ...".into());
+            }
+            s.push_str(&parts.join(","));
+            s.push_str(" }\n");
+        } else {
+            s.push_str(&type_txt(e.kind));
+            s.push('\n');
+        }
+    }
+    s.push_str("END\n");
+    s
+}
+
+/// `#[asn(<attr>)]` + item text of `pub struct Top { .. }` in the generated file
+fn split_top(text: &str) -> Option<(String, String)> {
+    let lines: Vec<&str> = text.lines().collect();
+    let at = lines.iter().position(|l| {
+        l.strip_prefix("pub struct Top").map_or(false, |r| r.starts_with(' ') || r.starts_with(';') || r.starts_with('{'))
+    })?;
+    // walk back over the attribute lines of the item
+    let mut first = at;
+    while first > 0 && (lines[first - 1].starts_with("#[") || lines[first - 1].trim().is_empty()) {
+        first -= 1;
+    }
+    let mut attr = None;
+    let mut item = String::new();
+    for l in &lines[first..at] {
+        if attr.is_none() && l.starts_with("#[asn(") && l.ends_with(")]") {
+            attr = Some(l[6..l.len() - 2].to_string());
+        } else {
+            item.push_str(l);
+            item.push('\n');
+        }
+    }
+    let mut end = at;
+    if !lines[at].trim_end().ends_with("{}") && !lines[at].trim_end().ends_with(';') {
+        while end < lines.len() && lines[end] != "}" {
+            end += 1;
+        }
+    }
+    for l in &lines[at..=end.min(lines.len() - 1)] {
+        item.push_str(l);
+        item.push('\n');
+    }
+    Some((attr?, item))
+}
+
+fn class_code(name: &str) -> I {
+    match name {
+        "Universal" => 0,
+        "Application" => 1,
+        "ContextSpecific" => 2,
+        "Private" => 3,
+        _ => -9,
+    }
+}
+
+fn digits(s: &str) -> (Option<usize>, &str) {
+    let end = s.find(|c: char| !c.is_ascii_digit()).unwrap_or(s.len());
+    (s[..end].parse().ok(), &s[end..])
+}
+
+/// all occurrences of `pre <digits> post` in `s`, returning the digits and the remainder after `post`
+fn scan<'a>(s: &'a str, pre: &str, post: &str) -> Vec<(usize, &'a str)> {
+    let mut out = Vec::new();
+    let mut rest = s;
+    while let Some(p) = rest.find(pre) {
+        let after = &rest[p + pre.len()..];
+        let (d, r) = digits(after);
+        if let Some(d) = d {
+            if let Some(r2) = r.strip_prefix(post) {
+                out.push((d, r2));
+            }
+        }
+        rest = after;
+    }
+    out
+}
+
+fn between<'a>(s: &'a str, pre: &str, post: &str) -> Option<&'a str> {
+    let p = s.find(pre)?;
+    let after = &s[p + pre.len()..];
+    let q = after.find(post)?;
+    Some(&after[..q])
+}
+
+extern "C" {
+    fn dup(fd: i32) -> i32;
+    fn dup2(from: i32, to: i32) -> i32;
+    fn close(fd: i32) -> i32;
+}
+
+/// Run `f` with file descriptor 1 pointing at /dev/null (restored afterwards, also when `f` panics).
+fn silenced<T>(f: impl FnOnce() -> T) -> T {
+    use std::io::Write;
+    use std::os::fd::AsRawFd;
+    struct Restore(i32);
+    impl Drop for Restore {
+        fn drop(&mut self) {
+            let _ = std::io::stdout().flush();
+            unsafe {
+                dup2(self.0, 1);
+                close(self.0);
+            }
+        }
+    }
+    let _ = std::io::stdout().flush();
+    let Ok(null) = std::fs::OpenOptions::new().write(true).open("/dev/null") else { return f() };
+    let saved = unsafe { dup(1) };
+    if saved < 0 {
+        return f();
+    }
+    unsafe { dup2(null.as_raw_fd(), 1) };
+    let _restore = Restore(saved);
+    f()
+}
+
+fn op_3201(a: &[I]) -> Vec<I> {
+    let Some(d) = decode(a) else { return vec![-2] };
+    let text = render(&d);
+    let debug = std::env::var("A1H_TAGS_DEBUG").is_ok();
+    if debug {
+        eprintln!("{}", text);
+    }
+    let tokens = Tokenizer.parse(&text);
+    let model = match Model::try_from(tokens) {
+        Ok(m) => m,
+        Err(_) => return vec![1, 1],
+    };
+    let model = match model.try_resolve() {
+        Ok(m) => m,
+        Err(_) => return vec![1, 2],
+    };
+    let rust = model.to_rust();
+    let files = match RustCodeGenerator::from(rust).to_string() {
+        Ok(f) => f,
+        Err(_) => return vec![1, 3],
+    };
+    let generated = files.into_iter().map(|(_f, c)| c).collect::<Vec<_>>().join("\n");
+    if debug {
+        eprintln!("{}", generated);
+    }
+    let Some((attr, item)) = split_top(&generated) else { return vec![1, 4] };
+    let (Ok(attr_ts), Ok(item_ts)) = (attr.parse(), item.parse()) else { return vec![1, 5] };
+    // the attribute parser reports failures with println!; keep that off the answer stream
+    let expanded = silenced(|| {
+        let definition = match asn1rs_model::proc_macro::parse_asn_definition(attr_ts, item_ts) {
+            Ok((def, _item)) => def,
+            Err(_) => return Err(6),
+        };
+        if definition.is_none() {
+            return Err(7);
+        }
+        Ok(asn1rs_model::proc_macro::expand(definition)
+            .iter()
+            .map(|ts| ts.to_string())
+            .collect::<Vec<_>>()
+            .join(" "))
+    });
+    let expanded = match expanded {
+        Ok(e) => e,
+        Err(stage) => return vec![1, stage],
+    };
+    if debug {
+        eprintln!("{}", expanded);
+    }
+    let compact: String = expanded.chars().filter(|c| !c.is_whitespace()).collect();
+
+    let n = d.comps.len();
+    // field order of read_seq / write_seq
+    let Some(read_body) = between(&compact, "fnread_seq<", "fnwrite_seq<") else { return vec![1, 8] };
+    let read_order: Vec<usize> = scan(read_body, ":AsnDefTopFieldC", "::read_value(reader)?").iter().map(|x| x.0).collect();
+    let Some(p) = compact.find("fnwrite_seq<") else { return vec![1, 8] };
+    let write_body = &compact[p..];
+    let write_body = &write_body[..write_body.find("Ok(())").unwrap_or(write_body.len())];
+    let write_order: Vec<usize> = scan(write_body, "AsnDefTopFieldC", "::write_value(writer,&self.c").iter().map(|x| x.0).collect();
+    if read_order != write_order || read_order.len() != n {
+        return vec![1, 9];
+    }
+    // TAG constants of the field constraints
+    let mut tags: Vec<Option<(I, I)>> = vec![None; n];
+    for (i, rest) in scan(
+        &compact,
+        "common::Constraintfor___asn1rs_TopFieldC",
+        "Constraint{constTAG:::asn1rs::model::asn::Tag=::asn1rs::model::asn::Tag::",
+    ) {
+        let name_end = rest.find('(').unwrap_or(0);
+        let (num, _) = digits(&rest[name_end + 1..]);
+        if i < n {
+            if let Some(num) = num {
+                tags[i] = Some((class_code(&rest[..name_end]), num as I));
+            }
+        }
+    }
+    let Some(std_opt) = between(&compact, "constSTD_OPTIONAL_FIELDS:u64=", ";").and_then(|s| s.parse::<I>().ok()) else {
+        return vec![1, 10];
+    };
+    let ext_after = match between(&compact, "constEXTENDED_AFTER_FIELD:Option<u64>=", ";") {
+        Some("None") => -1,
+        Some(s) => match s.strip_prefix("Some(").and_then(|s| s.strip_suffix(')')).and_then(|s| s.parse::<I>().ok()) {
+            Some(v) => v,
+            None => return vec![1, 10],
+        },
+        None => return vec![1, 10],
+    };
+    let mut out = vec![0, n as I];
+    out.extend(read_order.iter().map(|i| *i as I));
+    for i in &read_order {
+        match tags[*i] {
+            Some((c, num)) => {
+                out.push(c);
+                out.push(num);
+            }
+            None => return vec![1, 11],
+        }
+    }
+    out.push(std_opt);
+    out.push(ext_after);
+    // the TAG constant of the SET/SEQUENCE type itself
+    let own_pre = "common::ConstraintforTop{constTAG:::asn1rs::model::asn::Tag=::asn1rs::model::asn::Tag::";
+    let Some(p) = compact.find(own_pre) else { return vec![1, 12] };
+    let rest = &compact[p + own_pre.len()..];
+    let name_end = rest.find('(').unwrap_or(0);
+    let (num, _) = digits(&rest[name_end + 1..]);
+    let Some(num) = num else { return vec![1, 12] };
+    out.push(class_code(&rest[..name_end]));
+    out.push(num as I);
+    out
+}
+
+pub fn run(op: I, a: &[I]) -> Vec<I> {
+    match op {
+        3201 => match crate::catch(|| op_3201(a)) {
+            Ok(v) => v,
+            Err(c) => vec![2, c],
+        },
+        _ => vec![-1],
+    }
 }
